@@ -10,6 +10,9 @@ TEST_TRACE = "TestZZVerifC01Trace"
 DEFAULT_FLAGS = {"prot": "on", "filt": True, "svc": "none", "aaaaOff": False}
 
 
+MAX_REPORTS = 25     # replay records written per direction and run
+
+
 def classify(rec):
     """Narrow keys of known findings (none for C01)."""
     return None
@@ -112,7 +115,7 @@ def run(ctx):
     for c in rng.sample(sel, min(udp_n, len(sel))):
         c["udp"] = True
     confirmed, st = cm.replay_with_confirmation(ctx, TEST_REPLAY, cm.FILES01, hdr, sel, "c01")
-    for b in confirmed:
+    for b in confirmed[:MAX_REPORTS]:
         ctx.disagreement(classify(b), b, "C01: %s -- observed %s, spec admits %s (lists %s)" % (
             b["concrete"], json.dumps(b["got"]), json.dumps(b["want"]), json.dumps(b["lists"])))
 
@@ -128,7 +131,7 @@ def run(ctx):
         rows2, bad2, _ = cm.trace_validate(ctx, TEST_TRACE, cm.FILES01, n_cfg, "c01b", only=real_ci)
         again = {json.dumps(rows2[b - 1]["req"], sort_keys=True) + json.dumps(rows2[b - 1]["obs"], sort_keys=True)
                  for b in bad2}
-        for b in bad_lines:
+        for b in bad_lines[:MAX_REPORTS]:
             rec = dict(trows[b - 1])
             if json.dumps(rec["req"], sort_keys=True) + json.dumps(rec["obs"], sort_keys=True) in again:
                 rejected += 1
@@ -137,13 +140,14 @@ def run(ctx):
                     j -= 1
                 rec["cfg"] = trows[j]["cfg"]
                 rec["lists"] = trows[j].get("lists")
+                rec["ci"], rec["seed"], rec["n_cfg"] = trows[j]["ci"], ctx.seed, n_cfg
                 ctx.disagreement(classify(rec), rec, "C01 trace: %s -- outcome %s not admitted by DnsPipeline (lists %s)" % (
                     rec.get("concrete"), json.dumps(rec["obs"]), json.dumps(rec["lists"])))
 
     sel_nt = sum(1 for c in sel if c["i"] in nt)
     blocked_entries = sum(1 for c in sel for e in c["tab"] if any(o["why"] in ("B", "S") for o in e))
-    if blocked_entries == 0 or sel_nt == 0:
-        raise vlib.Inconclusive("vacuous replay: no blocked entry / no non-trivial configuration")
+    if blocked_entries == 0 or sel_nt == 0 or st["udp"] == 0:
+        raise vlib.Inconclusive("vacuous replay: no blocked entry / no non-trivial configuration / no UDP request")
     s0 = sel[0]
     samples = [{"cfg": s0["cfg"], "first_entries": s0["tab"][:3]},
                {"cfg": sel[len(sel) // 2]["cfg"], "first_entries": sel[len(sel) // 2]["tab"][:3]}]
@@ -159,7 +163,7 @@ def run(ctx):
                 "non-trivial = two rules decide the same request, or deleting a rule changes a verdict it does not decide alone, "
                 "or (flag stratum) the flags change the table of the rule set" % nq,
         "blocked_entries_replayed": blocked_entries,
-        "udp_configurations": sum(1 for c in sel if c.get("udp")),
+        "udp_configurations": sum(1 for c in sel if c.get("udp")), "udp_requests": st["udp"],
         "trace_lines": trace_q, "trace_lines_rejected": rejected, "trace_corrupted_lines_rejected": ncorrupt,
         "flaky": st["flaky"], "skipped": st["skipped"],
         "exhaustive": not ctx.quick, "samples": samples,
@@ -181,5 +185,4 @@ def replay(ctx, path):
                           "observed": [b["got"] for b in confirmed] or "admissible",
                           "concrete": [b["concrete"] for b in confirmed]}, indent=1))
         return 1 if confirmed else 0
-    print("trace records are replayed by re-running the check with the same VERIF_SEED")
-    return 2
+    return cm.replay_trace_record(ctx, TEST_TRACE, cm.FILES01, rec, "c01r")
